@@ -7,12 +7,15 @@ import json
 import os
 import random
 import re
+import shutil
 import subprocess
 import time
 from collections import defaultdict, deque
 from concurrent.futures import ThreadPoolExecutor
 
 from . import core
+
+SCALES = (1, 1, 1, 1, 1, 1, 1, 1, 1 << 33, 1 << 59)
 
 KEYS = ("total", "current", "refill", "trig", "aborted", "rm", "phase")
 
@@ -25,6 +28,38 @@ def tlc_check(cfg, wd, workers=8):
     rc, out = core.run_tlc(core.SPECS, "MCBarState.tla", cfg, workers=workers, timeout=900)
     st, tr = core.tlc_stats(out)
     return rc, out, st, tr
+
+
+IND_OBLIGATIONS = [("IndInit", "IndInv", 1), ("UInit", "IndInv", 0)] + [("IndInit", a, 1) for a in (
+    "ActCompletedStable", "ActAbortedStable", "ActNoCompletionWithoutTrigger", "ActAbortNoEffectOnCompleted", "ActAdoptKeepsCounter",
+    "ActSetTotalIgnoredWhenTriggered", "ActTerminalForEver", "ActIncrementAccumulates", "ActNegativeSetCurrentIgnored")]
+
+
+def apalache_ind(wd):
+    """BarInd.tla: the rules of BarRules.tla for every integer.  Apalache discharges the inductive invariant (initial
+    states; one step from any state that satisfies it) and every action property as a one-step obligation, and - so that
+    the run is not vacuous - finds the two-call counterexample to Exclusive in the rules as they were before the repair."""
+    def one(ob):
+        init, inv, length, cinit, want = ob
+        d = os.path.join(wd, "apa-%s-%s-%s" % (init, inv, cinit))
+        os.makedirs(d, exist_ok=True)
+        for f in ("BarRules.tla", "BarInd.tla"):
+            shutil.copy(os.path.join(core.SPECS, f), d)
+        cmd = ["apalache-mc", "check", "--cinit=" + cinit, "--init=" + init, "--next=UNext", "--inv=" + inv, "--length=%d" % length,
+               "--out-dir=" + os.path.join(d, "out"), "BarInd.tla"]
+        try:
+            p = subprocess.run(cmd, cwd=d, capture_output=True, text=True, timeout=600)
+        except subprocess.TimeoutExpired:
+            raise core.Infra("apalache timed out on " + inv)
+        m = re.search(r"EXITCODE: (\w+)", p.stdout)
+        got = m.group(1) if m else "none"
+        if got != want:
+            raise core.Infra("apalache: %s from %s (%s) is %s, expected %s:\n%s" % (inv, init, cinit, got, want, p.stdout[-1500:]))
+        return inv
+    obs = [(i, v, l, "ConstInit", "OK") for (i, v, l) in IND_OBLIGATIONS] + [("UInit", "Exclusive", 2, "ConstInitOrig", "ERROR")]
+    with ThreadPoolExecutor(max_workers=6) as ex:
+        done = list(ex.map(one, obs))
+    return done
 
 
 def edges_from_tlc(cfg):
@@ -135,6 +170,8 @@ def run(prop, tier, seed):
         rc, out, st1, tr1 = tlc_check("BarState.cfg", wd)
         if rc != 0:
             raise core.Infra("BarState.tla does not satisfy its own properties (model defect):\n" + out[-3000:])
+        # 1b. the same rules for every integer, by Apalache
+        proved = apalache_ind(wd)
         # 2. the transition relation, by TLC
         edges, st2, tr2 = edges_from_tlc("BarStateEdges.cfg" if tier == "thorough" else "BarStateEdgesQuick.cfg")
         succ, proj = build(edges)
@@ -166,7 +203,10 @@ def run(prop, tier, seed):
                 l2, s = rng.choice(nx)
                 cont.append(l2)
             ops = ops + cont
-            seqs.append({"id": i, "total": proj[root[f]]["total"], "ops": [{"op": o, "a": a, "f": fl} for (o, a, fl) in ops]})
+            # one walk in five is executed with every number multiplied by 2^33 or 2^59 (the largest power of two that keeps
+            # every sum of the bounded walk inside int64): the rules are homogeneous, BarInd.tla has them for every integer
+            scale = rng.choice(SCALES)
+            seqs.append({"id": i, "total": proj[root[f]]["total"], "scale": scale, "ops": [{"op": o, "a": a, "f": fl} for (o, a, fl) in ops]})
             meta[i] = (root[f], ops)
         obs = run_go(binary, wd, seqs, core.NCPU)
         covered = set()
@@ -183,7 +223,7 @@ def run(prop, tier, seed):
             live = all(proj[s]["phase"] == "live" for s in allowed)
             which = "C09" if live else "C11"
             path_ = os.path.join(core.ROOT, "replays", "%s-barseq-%d.json" % (prop, i))
-            json.dump({"property": prop, "kind": "barseq", "total": proj[r0]["total"], "ops": ops[:idx + 1], "observed": ob,
+            json.dump({"property": prop, "kind": "barseq", "total": proj[r0]["total"], "scale": seqs[i]["scale"], "ops": ops[:idx + 1], "observed": ob,
                        "allowed_before": [proj[s] for s in allowed]}, open(path_, "w"), default=str)
             if which == prop or prop == "C09":
                 lines.append("VIOLATION property=%s replay=%s rule=getters-disagree-with-BarState after %s got cur=%d completed=%d aborted=%d refill=%s" % (
@@ -197,8 +237,10 @@ def run(prop, tier, seed):
                "evaluations": len(seqs), "refill_marks_observed": sum(1 for s in seqs for o in obs[s["id"]] if len(o) > 3 and o[3] >= 0), "distinct_nontrivial": len({json.dumps(s["ops"]) + str(s["total"]) for s in seqs if len(s["ops"]) > 1}),
                "rule": "every transition of BarState.tla emitted by TLC (quick: a seeded sample of %d of %d) is replayed on a real bar as "
                        "BFS path + edge + up to 3 random further edges; non-trivial = at least two calls" % (limit, len(cand)),
+               "scaled_walks": sum(1 for s in seqs if s["scale"] > 1), "scales": sorted(set(SCALES)),
+               "unbounded_obligations_discharged_by_apalache": proved,
                "exhaustive": tier == "thorough", "edges": len(cand), "spec_states": len(proj),
-               "checker_cmd": "tlc MCBarState.tla (BarState.cfg, BarStateEdges.cfg); harness.test TestBarSeq"}
+               "checker_cmd": "tlc MCBarState.tla (BarState.cfg, BarStateEdges.cfg); apalache-mc check BarInd.tla (inductive invariant + action properties, unbounded integers); harness.test TestBarSeq"}
         return cov, lines, nviol, time.time() - t0
     finally:
         shutil.rmtree(wd, ignore_errors=True)
@@ -216,7 +258,7 @@ def replay(d):
         if not roots:
             raise core.Infra("initial total %s is outside the specification's constants" % d["total"])
         ops = [tuple(o) for o in d["ops"]]
-        seqs = [{"id": 0, "total": d["total"], "ops": [{"op": o, "a": a, "f": fl} for (o, a, fl) in ops]}]
+        seqs = [{"id": 0, "total": d["total"], "scale": d.get("scale", 1), "ops": [{"op": o, "a": a, "f": fl} for (o, a, fl) in ops]}]
         obs = run_go(binary, wd, seqs, 1)
         res = explain(succ, proj, roots[0], ops, obs[0])
         if res is None:
